@@ -5,6 +5,28 @@ VERIF = os.path.dirname(os.path.dirname(os.path.abspath(__file__)))
 ALL = [f"C{i:02d}" for i in range(1, 21)]
 
 CLAIMS = {
+ "C04": dict(
+    category="other",
+    text="Partial proof + fault enumeration. PROVED in Lean over a model of the parser primitives (cursor, fuel = Gen.parserFuel and the expect "
+         "recovery set = Gen.recoveryTokens, both regenerated from parser.rs on every run; peek/nth/eof/at/eat/advance/expect/advance_with_error): "
+         "peek_stuck_eof (after `fuel` looks without an advance every further look answers eof, reported once: stuck_reported_once), loop_terminates "
+         "(a `while !at(k) && !eof` loop whose body advances or spends fuel leaves within (fuel+1)(n+1) iterations), dispatch_progress (an if/else-if chain "
+         "of guards with an advancing default makes progress whatever its branches do), file_consumes_all (the top-level loop of file() terminates with "
+         "every token consumed, for any item parsers built from the primitives), expect_keeps_recovery_token, error_range_is_token_range. The model is "
+         "diffed against the real Parser object on random op sequences. Termination/validation of package graphs and artefacts is C16/C15 "
+         "(Props/C15.lean validate_iff, corrupt_core_rejected, other_version_*_rejected). SEARCHED, not proved: every entry point (parse, compile incl. the "
+         "CLI's error formatting and all stage pretty-printers, check_package, build_package, read_core, link_cores) on random texts, byte/token/"
+         "same-class-token mutations of the corpus and of generated programs, type-directed generated programs (well-typed and with one ill-typed hole), "
+         "22 nesting forms to depth 200, package directory layouts (missing/misnamed/cyclic/self-importing/invalid-UTF-8/multi-file), altered artefacts "
+         "(random bytes/JSON, truncation, every kind of single-value change) — each case in a child process (8 MiB main-thread stack) under catch_unwind "
+         "with a CPU-time watchdog; oracle: Ok or Err with at least one error diagnostic, every diagnostic range inside the text on char boundaries, no panic, "
+         "no abort, no hang. One signature per panic site (file + function) x entry point x stream class.",
+    design_ref="§5 C04, §C04 — as built",
+    note="Trusted: Lean kernel; extract_parser_consts/extract_recovery (regex over parser.rs, expr.rs, file.rs); harness/src/c04.rs, c04gen.rs, crash.rs, "
+         "jsonspan.rs. Crash-freedom is a search result over the explored inputs only; item parsers are covered by the StepOK closure argument, not modelled one "
+         "by one; ranges of diagnostics of multi-file projects are not checked (no file attribution). Known findings: polymorphic recursion never returns; "
+         "link_cores panics on a .core whose core_ir was edited (three sites).",
+    technique="Lean 4 proof of the parser's termination logic + op-sequence correspondence + crash/hang search in child processes (fault enumeration)"),
  "C03": dict(
     category="proof",
     text="Lean theorems over the type-consistency judgement Wt.errs (Model/Wt.lean: every node's annotation agrees with its children, "
@@ -104,8 +126,11 @@ CLAIMS = {
     note="Proved: the theorems above, about Model/Anf.lean and Sem. Caveat in the theorems: a source run that goes wrong (Fail.stuck = ill-typed IR) "
          "is only required to be matched by some outcome (ANF names all operands before the operation, so it notices an ill-typed operand later); "
          "well-typedness of the IR is C03's. Validated only: that the model equals anf.rs (exact tie on every real function, every run); the statement "
-         "lowering of go/compile.rs (compile_aexpr*, compile_while, compile_go) and go/dce.rs - covered by the stage-wise oracle on the Go stage, "
-         "dce.rs is modelled and proved by worker dce; real goroutine interleavings (the semantics offers two schedules: run the activation at "
+         "lowering of go/compile.rs (compile_aexpr*, compile_while, compile_go) - covered by the stage-wise oracle on the Go stage. "
+         "go/dce.rs has its own model (Model/Dce.lean) tied exactly to the real pass on every run (gv dce | gomlmodel dce) and Props/Dce.lean proves "
+         "dce_preserves / dce_preserves_body / dce_preserves_syn: every definite Go.Sem run (normal end or panic) of a function body is reproduced by the DCE'd "
+         "body with the same world, signal and result, under the decidable contract scopeErrs = [] /\\ shapeOK /\\ semOK (forward simulation; divergence of the "
+         "input run and simultaneous DCE of callees are not covered); real goroutine interleavings (the semantics offers two schedules: run the activation at "
          "the spawn / never before the spawner ends). Two small refinements of Sem.lean were needed and agreed: a tag evaluates to the enum value "
          "of its type, and && / || with a non-boolean left operand get stuck before the right operand is evaluated. Found and fixed: dead-code "
          "elimination dropped a dead division by zero (known_findings.json, fix commit by worker dce). Trusted: Lean kernel, Sem/Go.Sem, dump "
@@ -287,6 +312,26 @@ CLAIMS = {
     note="Trusted: Lean kernel; injectivity of SHA-256∘serde_json is a hypothesis; edit catalogue of 10 interface variants; textual JSON mutation; "
          "error-message classification in harness/src/c15.rs. Known finding: core_ir is covered by no digest.",
     technique="Lean 4 proof (invariant by induction over operation histories) + history-level differential correspondence"),
+ "C20": dict(
+    category="other",
+    text="Partial proof + fault enumeration. PROVED in Lean over a model of line-index's LineIndex, the offset_at glue of query.rs (its three "
+         "checks are regenerated from the Rust source into Gen/QueryGlue.lean on every run), rowan's token_at_offset on the leaf tokens and the "
+         "completion-placeholder logic: offset_total (for every text and every (line, col) the offset handed to the queries is absent or lies in "
+         "[0, len] on a char boundary), offset_complete (every in-text boundary position is accepted), token_at_in_range (the token selection never "
+         "fails for an in-range offset and every selected token contains it), hover_no_bad_offset (rowan's assertion cannot fire), "
+         "dot_prepare_safe / colon_prepare_safe (the `.`/`::` anchor and the focus offset lie inside the parsed text, insert_str is called on a "
+         "char boundary); the unfixed code is kept as Glue.unchecked with the counter-example. The model is diffed against the line-index crate, "
+         "rowan and the observable behaviour of the queries on every tie position. SEARCHED, not proved: that hover_type / dot_completions / "
+         "colon_colon_completions and the wasm-app wrappers return normally (catch_unwind + 5 s watchdog) on every prefix (token boundaries and "
+         "mid-token) and token-level mutation of corpus, seed, generated and token-soup programs x every (line, col) incl. positions outside the "
+         "text; that hover at every TAST identifier of an accepted program equals the TAST type; that every offered completion, inserted, does not "
+         "draw the diagnostic a non-existent name draws.",
+    design_ref="§5 C20, §C20 — as built",
+    note="Trusted: Lean kernel; extract_query_glue (regex over query.rs); harness/src/c20.rs + crash.rs; line-index and rowan behave as modelled "
+         "(diffed, not proved); token tiling of the tree (C12) is a hypothesis. Crash-freedom of lowering/hir/typer on erroneous programs is a search "
+         "result over the explored texts only. Known findings: hover on shorthand struct fields/binders and on dyn-coerced variables; `::` completions "
+         "in an impl header.",
+    technique="Lean 4 proof of the position logic + differential tie + crash/hang search (fault enumeration) + hover/completion differential against the compiler"),
  "C17": dict(
     category="proof",
     text="Lean theorems over a transcription of the four places that name a method's function (definition site and static site in "
@@ -364,11 +409,15 @@ CLAIMS = {
     text="Go.Check, a Lean checker for the rules go build/go vet enforce on the emitted subset (declared once and before use, typed "
          "assignment/call/return/composite literal, interface satisfaction, unused locals and imports, terminating statements, legal "
          "identifiers), applied to the REAL Go AST of every accepted corpus and generated program. goIdent_legal (C19) proves identifier "
-         "legality for all strings. Known findings: closures in func-typed positions, missing() at a non-unit type.",
-    design_ref="§5 C02",
+         "legality for all strings. The printed text is tied to that AST on every run (go_pprint output parsed back by goparse.rs with "
+         "Go's automatic-semicolon, precedence and composite-literal rules; oracle go-printer). Dead-code elimination (go/dce.rs) has a "
+         "Lean model tied exactly to the real pass (gv dce | gomlmodel dce) and theorems in Props/Dce.lean: dce_no_unused (every kept "
+         "local and type-switch binding is read), dce_decl_before_use, prune_imports_exact, prune_funcs_closed. "
+         "Known findings: closures in func-typed positions, nested type switch on one scrutinee, dyn-annotated struct literal.",
+    design_ref="§5 C02; DCE (C02/C09) — as built",
     note="Trusted: Go.Check as our reading of the Go spec (accepts the 73 corpus programs real Go accepted, rejects 058 as real Go did); "
-         "goast dump; go_pprint.rs not covered.",
-    technique="translation validation with a Lean-defined Go type/scope checker on the real Go AST"),
+         "goast dump; goparse.rs as our reading of Go's lexical grammar; compile.rs itself is validated per program, not modelled.",
+    technique="translation validation with a Lean-defined Go type/scope checker on the real Go AST, printer round trip, and Lean theorems about the DCE pass"),
  "C14": dict(
     category="proof",
     text="Lean theorems over Sem (Model/Sem.lean) and Model/Alpha.lean about exactly the two things in which the Core handed to mono/lift/anf/go differs "
